@@ -174,6 +174,7 @@ Definition pass_aggregate_arg (t : ty) (n_iregs n_fregs : Z) : Z * Z * Z :=
       else
         let ni := Z.of_nat (length (filter is_int_mtype l)) in
         let nf := Z.of_nat (length (filter is_sse_mtype l)) in
-        if (6 <? n_iregs + ni) || (8 <? n_fregs + nf) then (0, n_iregs, n_fregs)
+        if (negb (ni =? 0) && (6 <? n_iregs + ni)) || (negb (nf =? 0) && (8 <? n_fregs + nf))
+        then (0, n_iregs, n_fregs)
         else (blk_of l, n_iregs + ni, n_fregs + nf)
   end.
